@@ -728,6 +728,18 @@ class Interp:
                     r_ = hk(self, e, st)  # a property of the object's own class, read through self
                     if r_ is not None:
                         return r_
+                cae = getattr(self, "class_attr_exprs", None)
+                if cae:
+                    # a class-level binding read through self / cls (`__bare_lf = re.compile(...)` in the class body)
+                    nm = e.attr if e.attr in cae else ("_%s%s" % ((self.clsname or "").lstrip("_"), e.attr) if e.attr.startswith("__") else None)
+                    if nm in cae and nm not in getattr(self, "_ge_busy", ()):
+                        self._ge_busy = set(getattr(self, "_ge_busy", ())) | {nm}
+                        try:
+                            r_ = self.eval(cae[nm], State())
+                        finally:
+                            self._ge_busy = self._ge_busy - {nm}
+                        if len(r_) == 1 and isinstance(r_[0][0], Const):
+                            return [(r_[0][0], st)]
                 return [(Unknown(norm(e)), st)]
             res = []
             for v, s in self.eval(e.value, st):
@@ -1261,7 +1273,7 @@ class Interp:
                      loop_unroll=self.loop_unroll, depth=self.depth + 1, max_depth=self.max_depth,
                      exc_bases=self.exc_bases, resolve=self.resolve, selfname=self_param)
         sub.unknowns = self.unknowns
-        for hk in ("getattr_hook", "yield_hook", "exc_fields", "record_types", "self_attr_hook", "global_exprs"):
+        for hk in ("getattr_hook", "yield_hook", "exc_fields", "record_types", "self_attr_hook", "global_exprs", "class_attr_exprs"):
             if getattr(self, hk, None) is not None:
                 setattr(sub, hk, getattr(self, hk))
         params = list(func.params)
